@@ -234,7 +234,10 @@ def check_fe64(ctx, P, cfg="K0", rule="fe-bounds"):
 
 
 # --------------------------------------------------------------------------------------------------------- fe32
-def check_fe32(ctx, P, cfg="K2", rule="fe-bounds"):
+def check_fe32(ctx, P, cfg="K2", rule="fe-bounds", mul_level=3):
+    """mul_level: how many TIGHT values may have been added / subtracted (without a carry) into one operand of a multiplying
+    operation: LOOSE = mul_level x TIGHT.  The crate's own callers reach 3 (ge.rs: t3 = 2zz - (yy - xx)); `fe-use`
+    (feuse.py) decides that no call site exceeds it."""
     B_ = "curve25519::fe::fe32::Fe"
     nl = 10
     inl = lambda n: n.endswith("::emul") or bool(re.search(r"::load_[34][iu]$", n)) or n.endswith("Fe::square")
@@ -277,11 +280,16 @@ def check_fe32(ctx, P, cfg="K2", rule="fe-bounds"):
     L = T
     for it in range(MAXIT):
         L = T
-        for op, nargs in A:
-            outs, fails, wraps, unk = op.run({"arg1": T, "arg2": T})
-            for ov in outs:
-                L = join(L, ov)
-        L = sym(L)
+        for lvl in range(1, mul_level):
+            Lk = L
+            for op, nargs in A:
+                outs, fails, wraps, unk = op.run({"arg1": Lk, "arg2": T})
+                for ov in outs:
+                    L = join(L, ov)
+                outs, fails, wraps, unk = op.run({"arg1": T, "arg2": Lk})
+                for ov in outs:
+                    L = join(L, ov)
+            L = sym(L)
         nT = list(T)
         for op, nargs in M:
             outs, fails, wraps, unk = op.run({"arg1": L, "arg2": L})
@@ -304,7 +312,7 @@ def check_fe32(ctx, P, cfg="K2", rule="fe-bounds"):
             for w in wraps:
                 bad.append("%s%s: %s does not fit %s (%s)" % (op.fn.path, op.tag, w[0], w[3], bounds.fmt_iv(w[2])))
         for op, nargs in A:
-            outs, fails, wraps, unk = op.run({"arg1": T, "arg2": T})
+            outs, fails, wraps, unk = op.run({"arg1": L, "arg2": L})
             for f in fails:
                 bad.append("%s: %s can overflow %s" % (op.fn.path, f[1], f[3]))
             for w in wraps:
@@ -317,11 +325,14 @@ def check_fe32(ctx, P, cfg="K2", rule="fe-bounds"):
             ev = bounds.Iv(fe_leaf({"arg1": L}))
             for f in bounds.assert_failures(r, ev):
                 bad.append("%s: %s can overflow %s (%s)" % (path, f[1], f[3], bounds.fmt_iv(f[2]) if f[2] else "?"))
-    ctx.check(stable and not bad, rule, "fe32:contracts", "TIGHT = %s is closed under every multiplying operation applied to LOOSE = %s inputs (add/sub/neg of TIGHT); no overflow assert fires, no i64 -> i32 narrowing loses bits (fixpoint after %d rounds)" % (show(T), show(L), it + 1),
+    ctx.check(stable and not bad, rule, "fe32:contracts", "TIGHT = %s is closed under every multiplying operation applied to LOOSE = %s inputs (up to %d TIGHT values added / subtracted without a carry); no overflow assert fires, no i64 -> i32 narrowing loses bits (fixpoint after %d rounds)" % (show(T), show(L), mul_level, it + 1),
               "fe32 limb bounds do not satisfy the tight/loose contracts: %s; TIGHT reached %s; %s" % ("stable" if stable else "no fixpoint (a multiplying operation returns limbs that are not carried)", show(T), "; ".join(bad[:4])),
               where=P.fn(mulops[0][0]).where(), key="%s:fe32:contracts" % rule)
     if stable and not bad:
         ctx.guard("encode", "fe32::to_bytes", lambda: check_to_bytes(ctx, P, "fe32", cfg, L))
+        # the contracts are only as good as the way the rest of the crate composes the operations
+        from . import feuse
+        ctx.guard("fe-use", "fe32 call sites", lambda: feuse.check(ctx, P, kmax=mul_level, floor_sites=150))
     return T, L
 
 
